@@ -14,9 +14,8 @@ CFG = {
             "of the header region plus random segmentations for longer ones. trunc: decode of every proper prefix "
             "(tiny frames) / header-region, last-byte and random prefixes (longer frames). dec: all 256 x 256 two-byte "
             "headers followed by a complete and by a truncated remainder under random segmentation, reads that "
-            "return 0. CLAIMED PAYLOAD LENGTHS ARE CAPPED AT 16 MiB in the generator: the decoder executes "
-            "vec![0; length] before reading, so a header claiming e.g. 2^63 bytes aborts the whole process (not "
-            "catchable); that defect belongs to C03 and is not exercised here. opc: Opcode::try_from on all 256 "
+            "return 0. Claimed payload lengths are capped at 16 MiB in this generator; headers claiming up to 2^64-1 bytes "
+            "(the allocation defect repaired by aa4c57e) are C03's cases, run in a worker process. opc: Opcode::try_from on all 256 "
             "values. msg: Message::new/new_binary(..).to_frame(). Non-trivial = every enc/rt/trunc/msg case and every "
             "dec case with a valid opcode; distinct = distinct case line (hash set).",
     "exhaustive": True,
